@@ -1,6 +1,7 @@
 (* util.ml — glue between the extracted model (Coq datatypes) and text lines. Hand-written, untrusted
    beyond "prints what the model computed". *)
 open Model
+type string = String.t
 
 let rec pos_of_int (i : int) : positive =
   if i = 1 then XH else if i land 1 = 0 then XO (pos_of_int (i lsr 1)) else XI (pos_of_int (i lsr 1))
